@@ -1007,6 +1007,57 @@ class Prop:
                     return why
         return None
 
+    # ---------------------------------------------------------------- shrinking a failing case
+    def _variants(self, obj):
+        """one-step simplifications: drop one element of any nested list of structures
+        (attribute vectors, path lists, export-map entries, optional values), or drop one
+        segment of a well-formed AS_PATH"""
+        out = []
+
+        def rec(o, rebuild):
+            if not isinstance(o, list):
+                return
+            if o and all(isinstance(x, list) for x in o):
+                for i in range(len(o)):
+                    out.append(rebuild(o[:i] + o[i + 1:]))
+            if len(o) == 4 and o[0] == AS_PATH and o[2] == 1 and isinstance(o[3], list):
+                sg = parse_path(o[3])
+                if sg:
+                    for i in range(len(sg)):
+                        out.append(rebuild([o[0], o[1], o[2], enc_path(sg[:i] + sg[i + 1:])]))
+                    for i, (t, asns) in enumerate(sg):
+                        if len(asns) > 1:
+                            out.append(rebuild([o[0], o[1], o[2], enc_path(sg[:i] + [(t, asns[:len(asns) // 2])] + sg[i + 1:])]))
+            for i, x in enumerate(o):
+                rec(x, lambda v, i=i, o=o, rebuild=rebuild: rebuild(o[:i] + [v] + o[i + 1:]))
+        rec(obj, lambda v: v)
+        return out
+
+    def shrink(self, case, why):
+        """greedy: keep applying a one-step simplification under which the real code still
+        fails the property text for the same reason (the harness judges every candidate)"""
+        cur = case
+        for _ in range(25):
+            cands = [v for v in self._variants(cur) if isinstance(v, list) and v and v[0] == cur[0]][:400]
+            if not cands:
+                break
+            obs, err = self.run_impl(cands, 'quick')
+            if obs is None:
+                break
+            nxt = None
+            for v, o in zip(cands, obs):
+                try:
+                    w = self.oracle(v, o)
+                except Exception:
+                    w = None
+                if w and w[:40] == why[:40]:
+                    nxt = v
+                    break
+            if nxt is None:
+                break
+            cur = nxt
+        return cur
+
     def in_known_class(self, kf, c, obs, why):
         return False
 
